@@ -6,6 +6,7 @@ failure mode, every buffer size are instances.
 import Sqroot.Proofs.Print
 import Sqroot.Proofs.FprintFault
 import Sqroot.Proofs.FprintFaultRun
+import Sqroot.Proofs.FprintFault12
 namespace Sqroot.Props.C12
 open Sqroot.Model Sqroot.Proofs
 
@@ -100,5 +101,27 @@ theorem early_exit_fwrite_is_the_plain_fwrite (c : MemoCfg) (m : Memo) (sink : S
     (h : fwriteFault3 c m sink s v size = some (.ok (r, m')))
     (h0 : fwrite3 c m sink s v size = some (.ok r0)) : r = r0 :=
   fwriteFault3_result_eq c m sink s v size r m' r0 h h0
+
+/-! ### v1 / v2 (pull iterators with one digit of look-ahead; `rangeFault12`, `rangesFault12`) -/
+
+/-- once the printer has latched an error, the remaining ranges request nothing — no iterator is
+even created (this is what the repaired defect of DESIGN §9.1b violated) -/
+theorem no_request_after_the_fault_v12 (c : MemoCfg) (m : Memo) (pr : Printer) (v : Val12) (rs : List PRange)
+    (herr : pr.raw.err = true) (res : Memo × Printer) (h : rangesFault12 c m pr v rs = some (.ok res)) :
+    res = (m, pr) :=
+  ranges_after_error12 c m pr v rs herr res h
+
+/-- the range during which the error is latched: with `j ≥ 1` digits handed to the printer the
+iterator was called `j + 1` times, and the demand afterwards is at most what delivering position
+`start + j + 1` needs — two positions beyond the last digit printed (the look-ahead digit and the
+block prefetch it may trigger), nothing more -/
+theorem fault_stops_the_range_v12 (c : MemoCfg) (m : Memo) (pr : Printer) (v v1 v2 : Val12) (r : PRange)
+    (m' : Memo) (pr' : Printer)
+    (h1 : v.apply (.withStart r.start) = some (.ok v1)) (h2 : v1.apply (.withEnd r.stop) = some (.ok v2))
+    (h : rangeFault12 c m pr v r = some (.ok (m', pr')))
+    (hok : pr.raw.err = false) (herr : pr'.raw.err = true) :
+    pr.pulled < pr'.pulled ∧
+    m'.maxLength ≤ max m.maxLength (blockUp c (v2.start.toNat + (pr'.pulled - pr.pulled) + 1)) :=
+  range_fault_prompt_stop12 c m pr v v1 v2 r m' pr' h1 h2 h hok herr
 
 end Sqroot.Props.C12
